@@ -12,3 +12,4 @@ pub mod rsview;
 pub mod l2;
 pub mod l3;
 pub mod tape;
+pub mod demos;
